@@ -2,7 +2,7 @@
    Statements only; proofs in proofs/ManagerInv.v, ManagerHist.v, ManagerDataInv.v. *)
 From Coq Require Import List Bool Arith ZArith NArith Permutation.
 From XD Require Import lib.ListAux lib.Toposort model.Manager model.ManagerData
-  proofs.ManagerIdx proofs.ManagerInv proofs.ManagerHist proofs.ManagerTrace proofs.ManagerDataInv.
+  proofs.ManagerIdx proofs.ManagerInv proofs.ManagerHist proofs.ManagerTrace proofs.ManagerDataInv proofs.ManagerExtra.
 Import ListNotations.
 Local Open Scope nat_scope.
 
@@ -53,6 +53,16 @@ Proof. exact (clone_Inv eqb eqb_spec). Qed.
 Theorem C03_verify_ok : forall (m : @mgr K A),
   Inv eqb m -> exists m', verify eqb m = Ok m' /\ Inv eqb m' /\ m_tasks m' = m_tasks m.
 Proof. exact (verify_ok eqb eqb_spec). Qed.
+(* the query "dependants of a location" (ref._find_dependant_targets / find_deps) on every
+   manager satisfying the invariant: exactly the locations reachable through "some surviving
+   task reads d and writes t", each once, sources first — a function of the surviving tasks *)
+Theorem C03_find_deps : forall (m : @mgr K A) start,
+  Inv eqb m ->
+  let L := find_deps eqb m start in
+  NoDup L /\
+  (forall w, In w L <-> exists r, In r start /\ clos (influences eqb (m_tasks m)) r w) /\
+  (forall u v, In u L -> influences eqb (m_tasks m) u v -> before u v L \/ clos (influences eqb (m_tasks m)) v u).
+Proof. exact (find_deps_spec eqb eqb_spec). Qed.
 End Generic.
 
 (* after every history of assignments (value / expression / in-place), register,
@@ -92,6 +102,7 @@ Print Assumptions C03_history_independent.
 Print Assumptions C03_refresh_is_clone.
 Print Assumptions C03_clone_identity.
 Print Assumptions C03_verify_ok.
+Print Assumptions C03_find_deps.
 Print Assumptions C03_reachable.
 Print Assumptions C03_empty.
 Print Assumptions C03_nonvacuous.
